@@ -6,6 +6,7 @@ import json, os, shutil, subprocess, sys, tempfile, argparse
 ap = argparse.ArgumentParser()
 ap.add_argument("--property"); ap.add_argument("--id"); ap.add_argument("--tests", action="store_true")
 ap.add_argument("--keep", action="store_true")
+ap.add_argument("--full", action="store_true", help="analyse every function of the property, not only those of the mutated file")
 a = ap.parse_args()
 env = dict(os.environ, GOFLAGS="-mod=mod", GOPROXY="off", GOSUMDB="off", GOTOOLCHAIN="local")
 muts = json.load(open("/verif/selftest/mutations.json"))
@@ -26,7 +27,11 @@ for m in muts:
         if a.tests:
             r = subprocess.run(["go", "test", "-vet=off", "-count=1", "./..."], cwd=d, env=env, capture_output=True, text=True)
             print(f"  {m['id']}: repo tests {'pass' if r.returncode == 0 else 'FAIL'}")
-        r = subprocess.run(["/verif/bin/plencvc", "check", "--property", m["property"], "--repo", d, "--no-evidence", "--replay-dir", d + "/.replays"],
+        # contracts are unchanged, so only the functions of the mutated file can have different obligations
+        cmd = ["/verif/bin/plencvc", "check", "--property", m["property"], "--repo", d, "--no-evidence", "--replay-dir", d + "/.replays"]
+        if not a.full:
+            cmd += ["--files", m["file"]]
+        r = subprocess.run(cmd,
                            env=env, capture_output=True, text=True)
         viol = [l for l in r.stdout.splitlines() if l.startswith("VIOLATION")]
         if r.returncode == 1 and viol:
